@@ -6,6 +6,7 @@ import (
 
 	"capnproto.org/go/capnp/v3"
 	"capnproto.org/go/capnp/v3/internal/errors"
+	"capnproto.org/go/capnp/v3/internal/verifhook"
 	rpccp "capnproto.org/go/capnp/v3/std/capnp/rpc"
 )
 
@@ -109,6 +110,7 @@ func (c *Conn) newReturn(ctx context.Context) (rpccp.Return, func() error, capnp
 // already returned.  The caller MUST NOT be holding onto ans.c.mu
 // or the sender lock.
 func (ans *answer) setPipelineCaller(pcall capnp.PipelineCaller) {
+	verifhook.Yield(705)
 	ans.c.mu.Lock()
 	if ans.flags&resultsReady == 0 {
 		ans.pcall = pcall
@@ -162,6 +164,7 @@ func (ans *answer) Return(e error) {
 	if ans.results.IsValid() {
 		ans.resultCapTable, cstates = extractCapTable(ans.results.Message())
 	}
+	verifhook.Yield(700)
 	ans.c.mu.Lock()
 	ans.c.lockSender()
 	if e != nil {
@@ -190,6 +193,7 @@ func (ans *answer) Return(e error) {
 		}
 	}
 	ans.c.mu.Unlock()
+	verifhook.Yield(704)
 	rl.release()
 	ans.pcalls.Wait()
 	ans.c.tasks.Done() // added by handleCall
@@ -219,9 +223,11 @@ func (ans *answer) sendReturn(cstates []capnp.ClientState) (releaseList, error) 
 	default:
 		fin := ans.flags&finishReceived != 0
 		ans.c.mu.Unlock()
+		verifhook.Yield(701)
 		if err := ans.sendMsg(); err != nil {
 			ans.c.reportf("send return: %v", err)
 		}
+		verifhook.Yield(702)
 		if fin {
 			ans.releaseMsg()
 			ans.c.mu.Lock()
@@ -257,6 +263,7 @@ func (ans *answer) sendException(e error) releaseList {
 		// Send exception.
 		fin := ans.flags&finishReceived != 0
 		ans.c.mu.Unlock()
+		verifhook.Yield(703)
 		if exc, err := ans.ret.NewException(); err != nil {
 			ans.c.reportf("send exception: %v", err)
 		} else {
